@@ -115,6 +115,26 @@ def handle (j : Json) : Except String Json := do
     pure (Json.arr (table.map fun (c, _) => match Spec.Py.mro table c with
       | some m => strs m
       | none => Json.null).toArray)
+  | "decisions" =>
+    -- the two decisions behind "the type a selection set is evaluated for", asked directly:
+    --   `_get_inline_fragment_root_type(cond, root)` for every listed pair, and
+    --   `_unpack_fragment(fragment, root)` for every fragment x listed root
+    --   (`null` = called without root type, as `FragmentsGenerator` does)
+    let env ← decEnv j
+    let prs ← (← GqlWire.arr j "pairs").mapM fun x => do
+      match x with
+      | .arr #[.str c, .str r] => pure (c, r)
+      | _ => throw "decisions: [cond, root] expected"
+    let roots ← (← GqlWire.arr j "roots").mapM fun x => do
+      match x with
+      | .str r => pure (some r)
+      | .null => pure none
+      | _ => throw "decisions: root name or null expected"
+    let inl := prs.map fun (c, r) => match inlineFragmentRootType env c r with
+      | some t => Json.str t
+      | none => Json.null
+    let unp := env.frags.map fun f => Json.arr #[.str f.name, Json.arr (roots.map fun r => Json.bool (unpackFragment env f r)).toArray]
+    pure (Json.mkObj [("inlineRoot", Json.arr inl.toArray), ("unpack", Json.arr unp.toArray)])
   | "resultTypes" =>
     let env ← decEnv j
     let d ← match j.getObjVal? "operation" with
